@@ -253,4 +253,5 @@ func runC06(e *Engine, r *Report) {
 	ruleConfirmFromAllVoters(e, r)
 	ruleReadIndexRespIndex(e, r)
 	ruleHeartbeatRespProducer(e, r)
+	ruleResponseTypes(e, r, "ReadIndexResp", "HeartbeatResp")
 }
